@@ -1630,3 +1630,276 @@ Proof.
     now destruct (add_node_tail_char _ _ _ _ _ _ H2). }
   subst b'. exists b'', st3. split; [exact H3|]. apply obs_eq_sym, core_eq_obs, C3.
 Qed.
+
+(* ================================================================== *)
+(* 8. UpdateTrackIDs                                                     *)
+(* ================================================================== *)
+From FT Require Proofs.EditWalk Proofs.EditLin.
+
+(* the nodes the walk relabels: the longest prefix of the visiting order that carries the old id *)
+Definition trkb (st : state) (T x : Z) : bool := match zattr st x KTrack with Some t => t =? T | None => false end.
+Fixpoint pref (st : state) (T : Z) (vis : list Z) : list Z :=
+  match vis with [] => [] | x :: r => if trkb st T x then x :: pref st T r else [] end.
+(* the node at which the relabelling stops *)
+Fixpoint stop (st : state) (T : Z) (vis : list Z) : option Z :=
+  match vis with [] => None | x :: r => if trkb st T x then stop st T r else Some x end.
+
+Lemma trkb_true st T x : trkb st T x = true <-> trk st x = Some T.
+Proof.
+  unfold trkb, trk. destruct (zattr st x KTrack) as [t|]; [|split; discriminate].
+  rewrite Z.eqb_eq. split; [now intros ->|now intros [= ->]].
+Qed.
+Lemma pref_ext st st' T vis : (forall m, In m vis -> trk st' m = trk st m) -> pref st' T vis = pref st T vis /\ stop st' T vis = stop st T vis.
+Proof.
+  induction vis as [|x r IH]; intros H; cbn [pref stop]; [split; reflexivity|].
+  assert (E : trkb st' T x = trkb st T x) by (unfold trkb; unfold trk in H; now rewrite (H x (or_introl eq_refl))).
+  rewrite E. destruct (IH (fun m Hm => H m (or_intror Hm))) as [A B]. rewrite A, B. split; reflexivity.
+Qed.
+Lemma pref_incl st T vis : incl (pref st T vis) vis.
+Proof. induction vis as [|x r IH]; cbn [pref]; [intros m []|]. destruct (trkb st T x); [|intros m []]. intros m [<-|Hm]; [now left|right; now apply IH]. Qed.
+Lemma pref_trk st T vis m : In m (pref st T vis) -> trk st m = Some T.
+Proof.
+  induction vis as [|x r IH]; cbn [pref]; [intros []|]. destruct (trkb st T x) eqn:E; [|intros []].
+  intros [<-|Hm]; [now apply trkb_true|now apply IH].
+Qed.
+Lemma stop_spec st T vis x : stop st T vis = Some x -> In x vis /\ ~ In x (pref st T vis) /\ trk st x <> Some T.
+Proof.
+  induction vis as [|y r IH]; cbn [stop pref]; [discriminate|]. destruct (trkb st T y) eqn:E.
+  - intros H. destruct (IH H) as (A & B & C). split; [now right|]. split; [|exact C].
+    intros [->|Hi]; [apply trkb_true in E; contradiction|contradiction].
+  - intros [= ->]. split; [now left|]. split; [intros []|]. intros Ht. apply trkb_true in Ht. congruence.
+Qed.
+
+(* relabelling the prefix with T': the same prefix is found again when looking for T',
+   provided the node where the walk stopped does not carry T' *)
+Lemma pref_relabel st st1 T T' : forall vis, NoDup vis ->
+  (forall m, In m vis -> trk st1 m = if memz m (pref st T vis) then Some T' else trk st m) ->
+  (forall x, stop st T vis = Some x -> trk st x <> Some T') ->
+  pref st1 T' vis = pref st T vis /\ stop st1 T' vis = stop st T vis.
+Proof.
+  induction vis as [|x r IH]; intros Hnd Htr Hst; cbn [pref stop]; [split; reflexivity|].
+  inversion Hnd as [|? ? Hx Hr]; subst. destruct (trkb st T x) eqn:E.
+  - assert (E1 : trkb st1 T' x = true).
+    { apply trkb_true. rewrite (Htr x (or_introl eq_refl)). cbn [pref]. rewrite E. unfold memz. cbn [existsb]. now rewrite Z.eqb_refl. }
+    rewrite E1. destruct (IH Hr) as [A B].
+    + intros m Hm. rewrite (Htr m (or_intror Hm)). cbn [pref]. rewrite E. unfold memz. cbn [existsb].
+      destruct (Z.eqb_spec m x) as [->|]; [contradiction|reflexivity].
+    + intros y Hy. apply Hst. cbn [stop]. now rewrite E.
+    + rewrite A, B. split; reflexivity.
+  - assert (E1 : trkb st1 T' x = false).
+    { destruct (trkb st1 T' x) eqn:E1; [|reflexivity]. exfalso. apply trkb_true in E1.
+      rewrite (Htr x (or_introl eq_refl)) in E1. cbn [pref] in E1. rewrite E in E1. cbn in E1.
+      apply (Hst x); [cbn [stop]; now rewrite E|exact E1]. }
+    rewrite E1. split; reflexivity.
+Qed.
+
+Lemma visit1_fold_pref oldT newT newL : forall vis st flag tn ln st1 f1 tn1 ln1, NoDup vis ->
+  fold_left (visit1 oldT newT newL) vis (st, flag, tn, ln) = (st1, f1, tn1, ln1) ->
+  tn1 = tn ++ (if flag then pref st oldT vis else []).
+Proof.
+  induction vis as [|x r IH]; intros st flag tn ln st1 f1 tn1 ln1 Hnd H.
+  - cbn in H. injection H as _ _ <- _. destruct flag; now rewrite app_nil_r.
+  - cbn [fold_left] in H. destruct (visit1 oldT newT newL (st, flag, tn, ln) x) as [[[sa fa] tna] lna] eqn:Ev.
+    inversion Hnd as [|? ? Hx Hr]; subst.
+    destruct (visit1_spec _ _ _ _ _ _ _ _ _ _ _ _ Ev) as (_ & _ & _ & _ & _ & HT).
+    rewrite (IH _ _ _ _ _ _ _ _ Hr H).
+    destruct HT as [([Hf Ht] & -> & -> & _ & Tm)|(Hno & -> & -> & _)].
+    + subst flag. cbn [pref]. apply trkb_true in Ht. rewrite Ht.
+      destruct (pref_ext st sa oldT r) as [A _].
+      { intros m Hm. unfold trk, zattr. rewrite Tm; [reflexivity|]. intros ->. contradiction. }
+      rewrite A, <- app_assoc. reflexivity.
+    + rewrite app_nil_r. destruct flag; [|now rewrite app_nil_r]. cbn [pref].
+      destruct (trkb st oldT x) eqn:E; [|now rewrite app_nil_r]. exfalso. apply Hno. split; [reflexivity|now apply trkb_true].
+Qed.
+
+Lemma reach_conv st a b : EditBook.reach st a b -> EditWalk.reach st a b.
+Proof.
+  induction 1 as [u|u v w _ IH He]; [apply Relation_Operators.rt_refl|].
+  eapply Relation_Operators.rt_trans; [exact IH|now apply Relation_Operators.rt_step].
+Qed.
+
+(* the walk, completely *)
+Lemma walk_char st start oldT newT newL s1 tn ln :
+  W_dict st -> W_forest st -> is_node st start -> trk st start = Some oldT ->
+  walk (S (length (nodes (g st)))) oldT newT newL st [start] true [] [] = Some (s1, tn, ln) ->
+  exists vis, bfs (S (length (nodes (g st)))) st [start] = Some vis /\ NoDup vis /\ In start vis /\
+    (forall m, In m vis -> EditWalk.reach st start m) /\ (forall m, In m vis -> is_node st m) /\
+    attr_upd st s1 /\ tn = pref st oldT vis /\ In start (pref st oldT vis) /\
+    (forall m k, k <> KTrack -> k <> KLin -> attr s1 m k = attr st m k) /\
+    (forall m, attr s1 m KTrack = if memz m (pref st oldT vis) then Some (VZ newT) else attr st m KTrack) /\
+    (forall m, attr s1 m KLin = match newL with
+                                | Some l => if memz m vis then Some (VZ l) else attr st m KLin
+                                | None => attr st m KLin end).
+Proof.
+  intros WD WF Hs Ht Hw.
+  destruct (upd_track_walk _ _ _ _ _ _ _ _ WD Hs Ht Hw) as (vis & Eb & A & F & Hsv & Hvn & Eln & L1 & L2 & Hincl & Hst & _ & T1 & T2).
+  destruct (walk_bfs _ _ _ _ _ _ _ _ _ _ _ _ Hw) as (vis' & flag1 & Eb' & Ef). rewrite Eb in Eb'. injection Eb' as <-.
+  destruct (bfs_forest st WD (wf_in st WF) (wf_time st WF) (S (length (nodes (g st)))) [start] vis
+      ltac:(constructor; [intros []|constructor]) ltac:(intros a b' [<-|[]] [<-|[]] _; reflexivity) Eb) as [Hnd Hreach].
+  pose proof (visit1_fold_pref _ _ _ _ _ _ _ _ _ _ _ _ Hnd Ef) as Etn. cbn [app] in Etn.
+  exists vis. split; [exact Eb|]. split; [exact Hnd|]. split; [exact Hsv|]. split.
+  { intros m Hm. destruct (Hreach m Hm) as (c & [<-|[]] & R). now apply reach_conv. }
+  split; [exact Hvn|]. split; [exact A|]. split; [exact Etn|]. split; [now rewrite <- Etn|]. split; [exact F|]. split.
+  - intros m. rewrite <- Etn. destruct (memz m tn) eqn:Em; [apply memz_In in Em; apply T1, Em|apply memz_false in Em; now apply T2].
+  - intros m. destruct newL as [l|]; [|apply L2; now left].
+    destruct (memz m vis) eqn:Em; [apply memz_In in Em; now apply (L1 m l)|apply memz_false in Em; apply L2; now right].
+Qed.
+
+Lemma do_upd_track_char st start newT newL b st1 : cfg_ok st -> do_upd_track st start newT newL = Ok b st1 ->
+  exists oldT s1 tn ln, is_node st start /\ trk st start = Some oldT /\
+    b = BUpdTrack start oldT newT (zattr st start KLin) newL /\
+    walk (S (length (nodes (g st)))) oldT newT newL st [start] true [] [] = Some (s1, tn, ln) /\ core_eq s1 st1 /\
+    max_trk (bk s1) <= max_trk (bk st1).
+Proof.
+  intros (Cta & Cla & _). unfold do_upd_track. destruct (has_node st start) eqn:Eh; [|discriminate]. cbn [negb].
+  destruct (zattr st start KTrack) as [oldT|] eqn:Et; [|discriminate]. rewrite Cta, Cla. cbn [negb].
+  destruct (walk _ oldT newT newL st [start] true [] []) as [[[s1 tn] ln]|] eqn:Ew; [|discriminate].
+  intros H. exists oldT, s1, tn, ln. split; [now apply has_node_is_node|]. split; [exact Et|].
+  destruct newL as [l|]; injection H as <- <-; (split; [reflexivity|]); (split; [exact Ew|]); (split; [apply core_eq_upd_bk|cbn; lia]).
+Qed.
+
+(* pointwise equality of the graph: same node list, same adjacency, same value of every attribute *)
+Definition pw_eq (s s' : state) : Prop :=
+  node_ids s' = node_ids s /\ succs (g s') = succs (g s) /\ (forall m k, attr s' m k = attr s m k) /\
+  seg s' = seg s /\ ft s' = ft s.
+Lemma pw_eq_refl s : pw_eq s s.
+Proof. unfold pw_eq. auto. Qed.
+Lemma pw_eq_sym s s' : pw_eq s s' -> pw_eq s' s.
+Proof. intros (A & B & C & D & E). unfold pw_eq. repeat split; auto. Qed.
+Lemma pw_eq_trans a b c : pw_eq a b -> pw_eq b c -> pw_eq a c.
+Proof. intros (A & B & C & D & E) (A' & B' & C' & D' & E'). unfold pw_eq. split; [congruence|]. split; [congruence|]. split; [intros m k; now rewrite C', C|]. split; congruence. Qed.
+Lemma core_eq_pw s s' : core_eq s s' -> pw_eq s s'.
+Proof. intros (A & B & C). unfold pw_eq, node_ids, attr, node_attrs. rewrite A. auto. Qed.
+Lemma pw_eq_obs s s' : pw_eq s s' -> obs_eq s s'.
+Proof.
+  intros (A & B & C & D & E). constructor; auto.
+  - intros n. unfold is_node. now rewrite A.
+  - intros u v. unfold has_edge, adj. now rewrite B.
+  - intros n k _. unfold attr_obs. now rewrite C.
+  - intros u v k _. unfold eattr_obs, edge_attrs, adj. now rewrite B.
+Qed.
+
+(* the documented precondition, in the exact form the walk needs: the node at which the
+   relabelling stops does not already carry the new id *)
+Definition upd_track_pre (st : state) (start newT : Z) : Prop :=
+  forall vis oldT x, bfs (S (length (nodes (g st)))) st [start] = Some vis -> trk st start = Some oldT ->
+    stop st oldT vis = Some x -> trk st x <> Some newT.
+(* the lineage id is uniform downstream of the start node *)
+Definition lin_down (st : state) (start : Z) : Prop := forall m, EditWalk.reach st start m -> lin st m = lin st start.
+
+Lemma zattr_of_attr s s' m k : attr s' m k = attr s m k -> zattr s' m k = zattr s m k.
+Proof. intros H. unfold zattr. now rewrite H. Qed.
+
+(* UpdateTrackIDs, pointwise *)
+Lemma upd_track_effect st start newT newL b st1 :
+  cfg_ok st -> W_dict st -> W_forest st -> do_upd_track st start newT newL = Ok b st1 ->
+  exists oldT vis, is_node st start /\ trk st start = Some oldT /\
+    b = BUpdTrack start oldT newT (zattr st start KLin) newL /\
+    bfs (S (length (nodes (g st)))) st [start] = Some vis /\
+    bfs (S (length (nodes (g st1)))) st1 [start] = Some vis /\
+    NoDup vis /\ In start (pref st oldT vis) /\
+    (forall m, In m vis -> EditWalk.reach st start m) /\
+    node_ids st1 = node_ids st /\ succs (g st1) = succs (g st) /\ seg st1 = seg st /\ ft st1 = ft st /\
+    (forall m k, k <> KTrack -> k <> KLin -> attr st1 m k = attr st m k) /\
+    (forall m, attr st1 m KTrack = if memz m (pref st oldT vis) then Some (VZ newT) else attr st m KTrack) /\
+    (forall m, attr st1 m KLin = match newL with
+                                 | Some l => if memz m vis then Some (VZ l) else attr st m KLin
+                                 | None => attr st m KLin end).
+Proof.
+  intros Cfg WD WF H.
+  destruct (do_upd_track_char _ _ _ _ _ _ Cfg H) as (oldT & s1 & tn & ln & Hs & Ht & Hb & Hw & C1 & _).
+  destruct (walk_char _ _ _ _ _ _ _ _ WD WF Hs Ht Hw) as (vis & Eb & Hnd & Hsv & Hreach & Hvn & A & Etn & Hsp & F & KT & KL).
+  pose proof C1 as (Cg & Cs & Cf).
+  assert (Ea : forall m k, attr st1 m k = attr s1 m k) by (intros m k; apply (core_attr _ _ C1)).
+  exists oldT, vis. split; [exact Hs|]. split; [exact Ht|]. split; [exact Hb|]. split; [exact Eb|]. split.
+  { assert (El : length (nodes (g st1)) = length (nodes (g st))).
+    { rewrite Cg. pose proof (au_ids _ _ A) as Ei. unfold node_ids, keys in Ei. apply (f_equal (@length Z)) in Ei. now rewrite !map_length in Ei. }
+    rewrite El, <- Eb. apply bfs_ext. intros u. rewrite (core_successors _ _ C1). now apply attr_upd_successors. }
+  split; [exact Hnd|]. split; [exact Hsp|]. split; [exact Hreach|].
+  split; [unfold node_ids; rewrite Cg; apply (au_ids _ _ A)|]. split; [rewrite Cg; apply (au_succs _ _ A)|].
+  split; [rewrite Cs; apply (au_seg _ _ A)|]. split; [rewrite Cf; apply (au_ft _ _ A)|].
+  split; [intros m k H1 H2; rewrite Ea; now apply F|]. split; [intros m; rewrite Ea; apply KT|intros m; rewrite Ea; apply KL].
+Qed.
+
+Theorem upd_track_inverse st start newT newL b st1 :
+  cfg_ok st -> W_dict st -> W_forest st -> lin_down st start -> upd_track_pre st start newT ->
+  do_upd_track st start newT newL = Ok b st1 ->
+  exists b' st2, inv_basic st1 b = Ok b' st2 /\ pw_eq st st2.
+Proof.
+  intros Cfg WD WF Hlin Hpre H.
+  destruct (upd_track_effect _ _ _ _ _ _ Cfg WD WF H) as (oldT & vis & Hs & Ht & -> & Eb & Eb1 & Hnd & Hsp & Hreach & Ei & Es & Esg & Ef & F & KT & KL).
+  pose proof (upd_track_W_dict _ _ _ _ _ _ Cfg WD H) as WD1.
+  assert (WF1 : W_forest st1).
+  { apply (EditWalk.same_struct_W_forest st st1); [|exact WF].
+    pose proof (EditWalk.do_upd_track_struct st start newT newL _ eq_refl) as S. now rewrite H in S. }
+  assert (Cfg1 : cfg_ok st1) by (unfold cfg_ok; now rewrite Ef).
+  assert (Hs1 : is_node st1 start) by (unfold is_node; now rewrite Ei).
+  destruct (wd_lin st WD start Hs) as [o Eo]. rewrite (zattr_VZ st start KLin o Eo). cbn [inv_basic].
+  destruct (EditWalk.do_upd_track_ok st1 start oldT (Some o) WD1 WF1 Hs1) as (b' & st2 & H2).
+  exists b', st2. split; [exact H2|].
+  destruct (upd_track_effect _ _ _ _ _ _ Cfg1 WD1 WF1 H2) as (oldT1 & vis1 & _ & Ht1 & _ & Eb' & _ & _ & _ & _ & Ei2 & Es2 & Esg2 & Ef2 & F2 & KT2 & KL2).
+  rewrite Eb1 in Eb'. injection Eb' as <-.
+  assert (EoldT1 : oldT1 = newT).
+  { unfold trk in Ht1. apply zattr_inv in Ht1. rewrite KT in Ht1. apply memz_In in Hsp. rewrite Hsp in Ht1. congruence. }
+  subst oldT1.
+  assert (Htrk1 : forall m, trk st1 m = if memz m (pref st oldT vis) then Some newT else trk st m).
+  { intros m. unfold trk, zattr. rewrite KT. destruct (memz m (pref st oldT vis)); reflexivity. }
+  destruct (pref_relabel st st1 oldT newT vis Hnd (fun m _ => Htrk1 m)) as [EP _].
+  { intros x Hx. exact (Hpre vis oldT x Eb Ht Hx). }
+  rewrite EP in KT2.
+  unfold pw_eq. split; [congruence|]. split; [congruence|]. split; [|split; congruence].
+  intros m k. destruct (Z.eq_dec k KTrack) as [->|Hk1]; [|destruct (Z.eq_dec k KLin) as [->|Hk2]].
+  - rewrite KT2, KT. destruct (memz m (pref st oldT vis)) eqn:Em; [|reflexivity].
+    apply memz_In in Em. apply pref_trk in Em. symmetry. now apply zattr_inv.
+  - rewrite KL2. destruct (memz m vis) eqn:Em.
+    + apply memz_In in Em. symmetry. apply zattr_inv. change (lin st m = Some o). rewrite (Hlin m (Hreach m Em)). now apply zattr_VZ.
+    + rewrite KL. destruct newL; [now rewrite Em|reflexivity].
+  - rewrite F2, F by assumption. reflexivity.
+Qed.
+
+Theorem C01_upd_track_law st start newT newL b st1 :
+  cfg_ok st -> W_dict st -> W_forest st -> lin_down st start -> upd_track_pre st start newT ->
+  do_upd_track st start newT newL = Ok b st1 -> inverts st st1 b.
+Proof.
+  intros Cfg WD WF Hlin Hpre H.
+  destruct (upd_track_inverse _ _ _ _ _ _ Cfg WD WF Hlin Hpre H) as (b' & st2 & H2 & P2).
+  exists b', st2. split; [exact H2|]. split; [apply obs_eq_sym, pw_eq_obs, P2|].
+  destruct (upd_track_effect _ _ _ _ _ _ Cfg WD WF H) as (oldT & vis & Hs & Ht & -> & Eb & Eb1 & Hnd & Hsp & Hreach & Ei & Es & Esg & Ef & F & KT & KL).
+  pose proof (upd_track_W_dict _ _ _ _ _ _ Cfg WD H) as WD1.
+  pose proof (EditWalk.do_upd_track_struct st start newT newL _ eq_refl) as SS. rewrite H in SS. cbn [rstate] in SS.
+  assert (WF1 : W_forest st1) by (now apply (EditWalk.same_struct_W_forest st st1)).
+  assert (Cfg1 : cfg_ok st1) by (unfold cfg_ok; now rewrite Ef).
+  assert (Hs1 : is_node st1 start) by (unfold is_node; now rewrite Ei).
+  destruct (wd_lin st WD start Hs) as [o Eo]. rewrite (zattr_VZ st start KLin o Eo) in H2. cbn [inv_basic] in H2.
+  assert (Htrk1 : forall m, trk st1 m = if memz m (pref st oldT vis) then Some newT else trk st m).
+  { intros m. unfold trk, zattr. rewrite KT. destruct (memz m (pref st oldT vis)); reflexivity. }
+  destruct (pref_relabel st st1 oldT newT vis Hnd (fun m _ => Htrk1 m)) as [EP ES].
+  { intros x Hx. exact (Hpre vis oldT x Eb Ht Hx). }
+  assert (Hlin1 : lin_down st1 start).
+  { assert (Cta : trk_act (ft st) = true) by apply Cfg. assert (Cla : lin_act (ft st) = true) by apply Cfg.
+    pose proof (EditLin.do_upd_track_lin st start newT newL _ st1 WD Cta Cla Hs H) as L.
+    intros m Hm. apply (EditWalk.reach_same_struct st st1 start m SS) in Hm. destruct newL as [l|].
+    - destruct L as [L1 _]. rewrite (L1 m Hm). symmetry. apply L1. apply Relation_Operators.rt_refl.
+    - rewrite !L. now apply Hlin. }
+  assert (Hpre1 : upd_track_pre st1 start oldT).
+  { intros vis' oldT' x Eb' Ht' Hx. rewrite Eb1 in Eb'. injection Eb' as <-.
+    assert (oldT' = newT).
+    { rewrite Htrk1 in Ht'. apply memz_In in Hsp. rewrite Hsp in Ht'. congruence. }
+    subst oldT'. rewrite ES in Hx. destruct (stop_spec _ _ _ _ Hx) as (_ & Hnp & Hne).
+    rewrite Htrk1. apply memz_false in Hnp. now rewrite Hnp. }
+  destruct (upd_track_inverse _ _ _ _ _ _ Cfg1 WD1 WF1 Hlin1 Hpre1 H2) as (b'' & st3 & H3 & P3).
+  exists b'', st3. split; [exact H3|]. apply obs_eq_sym, pw_eq_obs, P3.
+Qed.
+
+(* the documented precondition implies the exact one *)
+Lemma upd_track_pre_doc st start newT :
+  (forall oldT m, trk st start = Some oldT -> EditWalk.reach st start m -> trk st m = Some newT -> newT = oldT) ->
+  W_dict st -> W_forest st -> upd_track_pre st start newT.
+Proof.
+  intros Hdoc WD WF vis oldT x Eb Ht Hx Hn.
+  destruct (bfs_forest st WD (wf_in st WF) (wf_time st WF) (S (length (nodes (g st)))) [start] vis
+      ltac:(constructor; [intros []|constructor]) ltac:(intros a b' [<-|[]] [<-|[]] _; reflexivity) Eb) as [_ Hreach].
+  destruct (stop_spec _ _ _ _ Hx) as (Hin & _ & Hne).
+  destruct (Hreach x Hin) as (c & [<-|[]] & R). apply reach_conv in R.
+  rewrite (Hdoc oldT x Ht R Hn) in Hn. contradiction.
+Qed.
